@@ -88,6 +88,7 @@ type c11Case struct {
 	Obj      []int // per stored object: 0 intact, 1 file removed, 2 index entry removed, 3 both
 	Extra    int   // extra well-formed object files
 	NoSchema bool
+	Reuse    bool // the first extra file carries the unique values of a removed object
 }
 
 func runC11(c *Ctx) {
@@ -147,6 +148,9 @@ func runC11(c *Ctx) {
 				for extra := 0; extra <= 2; extra++ {
 					for _, ns := range []bool{false, true} {
 						cases = append(cases, c11Case{Obj: obj, Extra: extra, NoSchema: ns})
+						if extra > 0 {
+							cases = append(cases, c11Case{Obj: obj, Extra: extra, NoSchema: ns, Reuse: true})
+						}
 					}
 				}
 			}
@@ -245,10 +249,22 @@ func runC11Case(cfg Cfg, base []Op, healthy *vfs.FS, model *Model, uuids []strin
 		}
 	}
 	fsys.Put(schemaPath, schema)
+	// the first extra file re-uses the unique values of the first object whose file was removed
+	// (somebody replaced an object by another one): legitimate, the old entry has to go
+	var reuse *Rec
+	for i, u := range uuids {
+		if cs.Obj[i]&1 != 0 && cs.Reuse {
+			reuse = model.Objs[u]
+			break
+		}
+	}
 	for e := 0; e < cs.Extra; e++ {
 		r := NewRec(2, 0)
 		r.K = fmt.Sprintf("EXTRA%d", e)
 		r.N = int64(1000 + e)
+		if e == 0 && reuse != nil {
+			r.K, r.N = reuse.K, reuse.N
+		}
 		r.U16 = uint16(100 + e)
 		r.P = 100 + e
 		u := fmt.Sprintf("eeeeeeee-0000-4000-8000-00000000000%d", e)
